@@ -95,3 +95,21 @@ package rotation
 //@   |   tsTime(ret.Current.NotBefore) == t + nb && tsTime(ret.Current.NotAfter) == t + life
 //@   |   && tsTime(ret.Next.NotBefore) == t + nb + life / 2 && tsTime(ret.Next.NotAfter) == t + life + life / 2
 //@   ensures[C08 ca] err == nil ==> true
+
+// ---------------------------------------------------------------- node.go (C10, C13)
+
+//@ func rotation.RotateNodeCredentials
+//@   let kcur = keyId(req.CertificatePublicKeyPkix)
+//@   let byNodeId = req.NodeId != "" && implements(storage, "nodeenrollment.NodeIdLoader")
+//@   nopanic[C14]
+//@   ensures[C10,C13 failclosed] err != nil ==> ret == nil
+//@   ensures[C10 lookup] reliable() && err == nil && !byNodeId ==> old(StHas("nodeinfo", kcur))
+//@   ensures[C10,C13 existingkept] reliable() ==> forall j String :: old(StHas("nodeinfo", j)) ==> unchangedNode(j)
+//@   ensures[C13 tokens] forall j String :: unchangedToken(j)
+//@   call registration.AuthorizeNode assert[C10 authenticated] currentNodeInfo != nil && StHas("nodeinfo", currentNodeInfo.Id)
+//@   |   && loadedFrom(currentNodeInfo, StGet("nodeinfo", currentNodeInfo.Id)) && arg2 == fetchRequest
+//@   call registration.AuthorizeNode assert[C10 state] opts(arg3).WithState == currentNodeInfo.State
+//@   call registration.FetchNodeCredentials assert[C10 samerequest] arg2 == fetchRequest
+//@   call nodeenrollment.EncryptMessage assert[C10 replykey] payload(arg2) == currentNodeInfo && currentNodeInfo != nil
+//@   loop 0 invariant[search] currentNodeInfo == nil && rangeindex + 1 >= 0 && (fetchErrors == nil || fresh(fetchErrors))
+//@   modifies StNodeInfo
